@@ -985,3 +985,263 @@ def preset_twin(ctx):
                                   'rejected (LZMA2:0)' % nm)
     if n == 0:
         ctx.anchor_missing('store clearing the dictionary-reset flag in LZMA2Writer')
+
+
+# --------------------------------------------------------------------------- SIZE-FIELD-TWIN (C01, C03, C08)
+
+def _header_stores(f, prov):
+    """[(block, const index, stripped value expr)] for stores into a local [u8; N] with a constant index."""
+    from lzlint.intervals import _strip
+    out = []
+    for bi, b in enumerate(f.blocks):
+        if b['cleanup']:
+            continue
+        for si, s in enumerate(b['stmts']):
+            if s['k'] != 'assign':
+                continue
+            lp = s['lhs']['p']
+            if not (len(lp) == 1 and isinstance(lp[0], dict) and ('ci' in lp[0] or 'i' in lp[0])):
+                continue
+            if not f.local_ty(s['lhs']['l']).startswith('[u8;'):
+                continue
+            idx = lp[0].get('ci')
+            if idx is None:
+                ie = prov.local(lp[0]['i'])
+                idx = ie[2] if ie[0] == 'const' else None
+            if idx is None:
+                continue
+            out.append((bi, s['lhs']['l'], idx, _strip(prov.rvalue(s['rv'], 0, '%d:%d' % (bi, si)))))
+    return out
+
+
+def _minus_one_shift(e):
+    """(X, shift) when e is `(X - 1) >> shift` or `X - 1` (shift 0); None otherwise."""
+    sh = 0
+    if e[0] == 'bin' and e[1] == 'Shr' and e[3][0] == 'const' and isinstance(e[3][2], int):
+        sh = e[3][2]
+        e = e[2]
+    if e[0] == 'bin' and e[1] == 'Sub' and e[3][0] == 'const' and e[3][2] == 1:
+        return e[2], sh
+    return None
+
+
+def _writer_layout(f, prov):
+    """Per header emitter: ({X-key: {index: shift}}, {X-key: shift OR-ed into byte 0}, other stores, problems)."""
+    fields = {}
+    high = {}
+    other = []
+    problems = []
+    for bi, arr, idx, e in _header_stores(f, prov):
+        if idx == 0:
+            # control byte: expand multi-definition locals, look for an OR-ed `(X - 1) >> s`
+            seen = set()
+            todo = [e]
+            while todo:
+                x = todo.pop()
+                if id(x) in seen:
+                    continue
+                seen.add(id(x))
+                for y in expr_walk(x):
+                    if y[0] == 'local':
+                        for (db, de) in prov.def_exprs(y[1]):
+                            from lzlint.intervals import _strip
+                            todo.append(_strip(de))
+                    if y[0] == 'bin' and y[1] == 'BitOr':
+                        for side in (y[2], y[3]):
+                            ms = _minus_one_shift(side)
+                            if ms:
+                                high[expr_str(ms[0])] = (ms[1], bi)
+            continue
+        ms = _minus_one_shift(e)
+        if ms is None:
+            if e[0] == 'const':
+                continue
+            other.append((bi, idx, e))
+            continue
+        fields.setdefault(expr_str(ms[0]), {})[idx] = (ms[1], bi)
+    return fields, high, other, problems
+
+
+@rule('SIZE-FIELD-TWIN', ['C01', 'C03', 'C08'], floor=7)
+def size_field_twin(ctx):
+    """The LZMA2 chunk header stores every size as `size - 1`, big-endian, the uncompressed size of an LZMA
+    chunk with five more bits in the control byte. Three sites have to agree on that layout: the writer's two
+    header emitters, the single-threaded reader's header decoder and the multi-threaded reader's work-unit
+    cutter (which only needs the payload length, but takes it from fixed header offsets). The layout is read off
+    the writer (which header index gets `(X - 1) >> 8k`), nothing is frozen: (W) every variable header byte is a
+    byte of `X - 1`, the bytes of one X are consecutive and end with shift 0, and only the first field of an
+    emitter may spill into the control byte, with shift 16; (R) the reader adds 1 to every 16-bit size it reads,
+    combines the first one of an LZMA chunk with `(control & 0x1F) << 16`, and hands the second one to the range
+    decoder; (M) the cutter takes the payload length of an LZMA chunk from the header offsets at which the writer
+    put the *compressed* size (the field without control bits), of an uncompressed chunk from the whole 2-byte
+    field, and adds 1 to both."""
+    from lzlint.intervals import _strip
+    F = ctx.facts
+    emitters = []
+    for f in methods_of(F, 'LZMA2Writer'):
+        prov = Prov(f)
+        st = _header_stores(f, prov)
+        if not any(idx == 0 for _, _, idx, _ in st):
+            continue
+        emitters.append((f, prov) + _writer_layout(f, prov))
+    if len(emitters) < 2:
+        return ctx.anchor_missing('LZMA2Writer chunk-header emitters (methods storing into a [u8; N] header, index 0 included)')
+    lzma_layout = None      # (uncompressed index, compressed index) from the emitter with control bits
+    plain_layout = None     # index of the only field of the other emitter
+    for f, prov, fields, high, other, problems in emitters:
+        for xk, d in sorted(fields.items()):
+            key = '%s:%s:big-endian-minus-one' % (f.key, xk[:40])
+            idxs = sorted(d)
+            shifts = [d[i][0] for i in idxs]
+            contiguous = idxs == list(range(idxs[0], idxs[0] + len(idxs)))
+            want = [8 * (len(idxs) - 1 - j) for j in range(len(idxs))]
+            if contiguous and shifts == want and len(idxs) == 2:
+                ctx.ok(key, f.loc(d[idxs[0]][1]), 'header[%d..=%d] = bytes of (%s - 1), most significant first' % (idxs[0], idxs[-1], xk[:60]))
+            else:
+                ctx.violation(key, f.loc(d[idxs[0]][1]), 'the bytes of (%s - 1) are stored at header indices %s with shifts %s; a 16-bit '
+                              'big-endian field needs two consecutive bytes with shifts [8, 0] (the reader reads it with read_u16_be)' % (
+                                  xk[:60], idxs, shifts))
+        for bi, idx, e in other:
+            if e[0] == 'call' and last_seg(e[1]) == 'get_props':
+                continue
+            ctx.violation('%s:header[%d]:not-a-size-byte' % (f.key, idx), f.loc(bi), 'header byte %d is %s: neither a constant, a byte of '
+                          '`size - 1`, nor the properties byte' % (idx, expr_str(e)[:80]))
+        if high:
+            for xk, (sh, bi) in high.items():
+                key = '%s:%s:high-bits-in-control' % (f.key, xk[:40])
+                d = fields.get(xk)
+                if sh == 16 and d and min(d) == 1:
+                    ctx.ok(key, f.loc(bi), 'control |= (%s - 1) >> 16; its low 16 bits follow the control byte' % xk[:60])
+                    rest = [min(dd) for k2, dd in fields.items() if k2 != xk]
+                    if len(rest) == 1:
+                        lzma_layout = (1, rest[0], f)
+                else:
+                    ctx.violation(key, f.loc(bi), 'control byte takes (%s - 1) >> %d, but the 16 bits stored in the header are at %s: '
+                                  'the reader rebuilds the size as ((control & 0x1F) << 16) + the u16 right after the control byte + 1' % (
+                                      xk[:60], sh, sorted(d) if d else 'no index'))
+        elif len(fields) == 1:
+            plain_layout = (min(list(fields.values())[0]), f)
+    if lzma_layout is None or plain_layout is None:
+        return ctx.violation('writer-layout', '-', 'cannot read the chunk header layout off the writer (need one emitter with a size spilling '
+                             'into the control byte plus a second size, and one emitter with a single size) - fail closed')
+    u_idx, c_idx, fw = lzma_layout
+    ctx.ok('writer-layout', fw.loc(0), 'LZMA chunk: uncompressed-1 at header[%d..], compressed-1 at header[%d..]; uncompressed chunk: size-1 at '
+           'header[%d..]' % (u_idx, c_idx, plain_layout[0]), nontrivial=False)
+    # (R) single-threaded reader
+    st = st_reader_info(F)
+    if st is None:
+        ctx.anchor_missing('LZMA2Reader chunk-header decoder')
+    else:
+        fr = st[0]
+        prov = Prov(fr)
+        reads = [(bi, t) for bi, t, c in fr.calls() if c.name == 'read_u16_be']
+        # every u16 read is used as `+ 1`
+        plus1 = {}
+        for bi, b in enumerate(fr.blocks):
+            for si, s in enumerate(b['stmts']):
+                if s['k'] == 'assign' and s['rv']['r'] == 'bin' and s['rv']['op'].startswith('Add'):
+                    e = _strip(prov.rvalue(s['rv'], 0, '%d:%d' % (bi, si)))
+                    if e[0] == 'bin' and e[1] == 'Add' and e[3][0] == 'const' and e[3][2] == 1 and e[2][0] == 'call' and last_seg(e[2][1]) == 'read_u16_be':
+                        plus1[bi] = e
+        key = '%s:every-size-plus-one' % fr.key
+        # a read at block rb is matched by the first `+ 1` block reachable from it
+        unmatched = []
+        for rb, t in reads:
+            tgt = t.get('target')
+            seen, todo, hit = set(), [tgt], False
+            while todo and not hit:
+                b = todo.pop()
+                if b in seen or b is None:
+                    continue
+                seen.add(b)
+                if b in plus1:
+                    hit = True
+                    break
+                if any(b == r for r, _ in reads):
+                    continue
+                todo.extend(fr.succs(b) if hasattr(fr, 'succs') else [])
+            if not hit:
+                unmatched.append(rb)
+        if reads and not unmatched and len(plus1) >= len(reads):
+            ctx.ok(key, fr.loc(reads[0][0]), '%d read_u16_be, each used as value + 1' % len(reads))
+        else:
+            ctx.violation(key, fr.loc((unmatched or [0])[0]), 'a 16-bit chunk size is not incremented by one after reading (the writer stores size - 1): '
+                          '%d read(s), %d `+ 1`' % (len(reads), len(plus1)))
+        # the first u16 on the LZMA path is combined with (control & 0x1F) << 16; the one handed to prepare is another read
+        combo = None
+        for bi, b in enumerate(fr.blocks):
+            for si, s in enumerate(b['stmts']):
+                if s['k'] == 'assign' and s['rv']['r'] == 'bin' and s['rv']['op'] == 'Shl':
+                    e = _strip(prov.rvalue(s['rv'], 0, '%d:%d' % (bi, si)))
+                    if e[3][0] == 'const' and e[2][0] == 'bin' and e[2][1] == 'BitAnd' and e[2][3][0] == 'const':
+                        combo = (bi, e[2][3][2], e[3][2])
+        key = '%s:control-bits' % fr.key
+        if combo and combo[1] == 0x1F and combo[2] == 16:
+            ctx.ok(key, fr.loc(combo[0]), 'uncompressed size takes (control & 0x1F) << 16')
+        else:
+            ctx.violation(key, fr.loc(combo[0] if combo else 0), 'the reader does not rebuild bits 16..20 of the uncompressed size as '
+                          '(control & 0x1F) << 16 (found %s); the writer puts (size - 1) >> 16 there' % (combo[1:] if combo else None,))
+        prep = [(bi, t) for bi, t, c in fr.calls() if c.name == 'prepare']
+        key = '%s:compressed-is-second-field' % fr.key
+        if combo and prep and len(reads) >= 2:
+            order = sorted(rb for rb, _ in reads)
+            # which read block feeds `prepare`: the `+ 1` block that dominates prepare and is not the one feeding the store next to the Shl
+            pe = _strip(prov.operand(prep[0][1]['args'][2], 0, '%d:T' % prep[0][0]))
+            feeds = pe[0] == 'bin' and pe[1] == 'Add' and pe[2][0] == 'call' and last_seg(pe[2][1]) == 'read_u16_be'
+            # position tag of the read inside the expression is lost after _strip; use dominance: the read closest before prepare
+            doms = [rb for rb in order if fr.dominates(rb, prep[0][0])] if hasattr(fr, 'dominates') else order
+            second = len(doms) >= 2
+            if feeds and second and (c_idx > u_idx):
+                ctx.ok(key, fr.loc(prep[0][0]), 'the range decoder is prepared with the second 16-bit field + 1 (writer: header[%d..])' % c_idx)
+            else:
+                ctx.violation(key, fr.loc(prep[0][0]), 'the compressed size handed to the range decoder is not the second 16-bit header field + 1 '
+                              '(writer puts compressed-1 at header[%d..], after uncompressed-1 at header[%d..])' % (c_idx, u_idx))
+        else:
+            ctx.violation(key, fr.loc(0), 'cannot locate the range decoder preparation / the two size reads (fail closed)')
+    # (M) MT cutter
+    mt = mt_reader_info(F)
+    if mt is None:
+        ctx.anchor_missing('LZMA2ReaderMT work-unit cutter')
+        return
+    fm = mt[0]
+    prov = Prov(fm)
+    got = []
+    for bi, t, c in fm.calls():
+        if c.name == 'from_be_bytes':
+            a = _strip(prov.operand(t['args'][0], 0, '%d:T' % bi))
+            if a[0] == 'agg' and len(a[2]) == 2 and all(x[0] == 'index' and x[2][0] == 'const' for x in a[2]):
+                got.append((bi, 'idx', [x[2][2] for x in a[2]], expr_str(a[2][0][1])))
+            else:
+                got.append((bi, 'whole', None, expr_str(a)))
+    # each is used as + 1
+    adds = 0
+    for bi, b in enumerate(fm.blocks):
+        for si, s in enumerate(b['stmts']):
+            if s['k'] == 'assign' and s['rv']['r'] == 'bin' and s['rv']['op'].startswith('Add'):
+                e = _strip(prov.rvalue(s['rv'], 0, '%d:%d' % (bi, si)))
+                if e[0] == 'bin' and e[1] == 'Add' and e[3][0] == 'const' and e[3][2] == 1 and e[2][0] == 'call' and last_seg(e[2][1]) == 'from_be_bytes':
+                    adds += 1
+    key = '%s:payload-length-plus-one' % fm.key
+    if got and adds == len(got):
+        ctx.ok(key, fm.loc(got[0][0]), '%d size field(s), each used as value + 1' % len(got))
+    else:
+        ctx.violation(key, fm.loc(got[0][0] if got else 0), 'the cutter does not add one to a chunk size it takes from the header '
+                      '(%d size fields, %d `+ 1`): units are cut one byte short' % (len(got), adds))
+    key = '%s:compressed-size-offset' % fm.key
+    idxd = [g for g in got if g[1] == 'idx']
+    whole = [g for g in got if g[1] == 'whole']
+    # the cutter reads the control byte separately, so header index k of the writer is offset k - 1 of its buffer
+    want = [c_idx - 1, c_idx]
+    if len(idxd) == 1 and idxd[0][2] == want:
+        ctx.ok(key, fm.loc(idxd[0][0]), 'payload length of an LZMA chunk = bytes %s after the control byte = writer header[%d..=%d] (compressed - 1)' % (
+            want, c_idx, c_idx + 1))
+    else:
+        ctx.violation(key, fm.loc(idxd[0][0] if idxd else 0), 'the cutter takes the payload length of an LZMA chunk from offsets %s after the control '
+                      'byte; the writer stores compressed - 1 at header[%d..=%d], i.e. offsets %s' % (
+                          [g[2] for g in idxd], c_idx, c_idx + 1, want))
+    key = '%s:uncompressed-chunk-size-field' % fm.key
+    if len(whole) == 1 and plain_layout[0] == 1:
+        ctx.ok(key, fm.loc(whole[0][0]), 'payload length of an uncompressed chunk = the whole 2-byte field after the control byte')
+    else:
+        ctx.violation(key, fm.loc(whole[0][0] if whole else 0), 'cannot match the uncompressed chunk size field of the cutter with the writer '
+                      '(writer: header[%d..]; cutter whole-array fields: %d)' % (plain_layout[0], len(whole)))
